@@ -235,6 +235,29 @@ fn run_v2(ctx: &mut Ctx) {
     let syms = [SymmetricKeyAlgorithm::AES128, SymmetricKeyAlgorithm::AES256, SymmetricKeyAlgorithm::AES192];
     let pats = [Pattern::ReadToEnd, Pattern::Fixed(1), Pattern::Fixed(7), Pattern::Fixed(64), Pattern::BufRead(3), Pattern::BufRead(1000), Pattern::PollOn(64), Pattern::PollOn(5), Pattern::ZeroMix(33)];
     let mut rng = ChaCha8Rng::seed_from_u64(ctx.seed ^ 0xC03);
+    // many chunks: the chunk index outgrows one octet (256, 257 ... chunks), and the last chunk of such
+    // a message is touched / the stream is cut at chunk boundaries past index 255
+    for (mi, aead) in modes.iter().enumerate() {
+        let cs = 64usize;
+        for nchunks in [255usize, 256, 257, 300] {
+            let n = nchunks * cs - 11 * (mi % 2);
+            let key = gen::random_bytes(&mut rng, 16);
+            let pt = gen::random_bytes(&mut rng, n);
+            let Ok(pkt) = SymEncryptedProtectedData::encrypt_seipdv2(&mut rng, SymmetricKeyAlgorithm::AES128, *aead, ChunkSize::C64B, &key, &pt) else { continue };
+            let SymEncryptedProtectedDataConfig::V2 { salt, .. } = pkt.config() else { continue };
+            let p = V2Params { sym: SymmetricKeyAlgorithm::AES128, aead: *aead, cs_octet: 0, salt: *salt, key: key.clone() };
+            let ct = pkt.data().to_vec();
+            v2_case(ctx, &p, &ct, &pt, &ct, "many_chunks", pats[(mi + nchunks) % pats.len()], false);
+            let mut m = ct.clone();
+            let at = ct.len() - 16 - 40;
+            m[at] ^= 0x10;
+            v2_case(ctx, &p, &ct, &pt, &m, "many_chunks_flip_late", Pattern::ReadToEnd, true);
+            let cut = 256 * 80;
+            if cut < ct.len() {
+                v2_case(ctx, &p, &ct, &pt, &ct[..cut], "many_chunks_cut_after_256", Pattern::Fixed(64), true);
+            }
+        }
+    }
     let cs_octets: &[u8] = if ctx.thorough() { &[0, 1, 2] } else { &[0, 1] };
     let mut combo = 0usize;
     for &cs_octet in cs_octets {
